@@ -512,6 +512,25 @@ class PyCdlibRockRidge:
 
         return iso_path.decode('utf-8')
 
+    def _rr_name_of_iso_path(self, iso_path):
+        # type: (str) -> Optional[bytes]
+        """
+        An internal method to get the Rock Ridge name of the entry at an
+        absolute ISO9660 path.
+
+        Parameters:
+         iso_path - The absolute ISO9660 path to look up.
+        Returns:
+         The Rock Ridge name of the entry, or None if there is no such entry.
+        """
+        try:
+            record = self.pycdlib_obj.get_record(iso_path=iso_path)
+        except pycdlibexception.PyCdlibInvalidInput:
+            return None
+        if record.rock_ridge is None:
+            return b''
+        return record.rock_ridge.name()
+
     def _rr_path_to_iso_path_and_rr_name(self, rr_path, is_dir):
         # type: (str, bool) -> Tuple[str, str]
         """
@@ -545,14 +564,31 @@ class PyCdlibRockRidge:
                 parent = parent.parent
 
         if is_dir:
-            iso_name = utils.mangle_dir_for_iso9660(rr_name.decode('utf-8'),
+            basename = utils.mangle_dir_for_iso9660(rr_name.decode('utf-8'),
                                                     self.pycdlib_obj.interchange_level)
+            iso_name = basename
         else:
             basename, ext = utils.mangle_file_for_iso9660(rr_name.decode('utf-8'),
                                                           self.pycdlib_obj.interchange_level)
             iso_name = '.'.join([basename, ext])
 
-        iso_path = iso_parent_path.decode('utf-8') + '/' + iso_name
+        # Different Rock Ridge names can mangle to the same ISO9660 name.  If
+        # the name is taken by an entry with another Rock Ridge name, replace
+        # the end of it with the first three digit number that is free, like
+        # pycdlib-genisoimage does.  An entry with the same Rock Ridge name is
+        # a real duplicate, which is left to the PyCdlib object to refuse.
+        iso_parent = iso_parent_path.decode('utf-8')
+        if self._rr_name_of_iso_path(iso_parent + '/' + iso_name) not in (None, rr_name):
+            for currnum in range(0, 1000):
+                if is_dir:
+                    tmp = '%s%.03d' % (basename[:5], currnum)
+                else:
+                    tmp = '%s%.03d.%s' % (basename[:5], currnum, ext)
+                if self._rr_name_of_iso_path(iso_parent + '/' + tmp) is None:
+                    iso_name = tmp
+                    break
+
+        iso_path = iso_parent + '/' + iso_name
 
         return iso_path, rr_name.decode('utf-8')
 
